@@ -7,8 +7,12 @@ TARGETS = ["Base/Corr.vo", "Base/Fl.vo", "Base/Num.vo", "C01/Model.vo", "C01/Mod
            "C08/Spec.vo", "C08/Model.vo", "C08/Corr.vo", "C08/ProofsList.vo", "C08/ProofsComb.vo", "C08/ProofsScalar.vo",
            "C08/ProofsSet.vo", "C08/ProofsComposite.vo", "C08/ProofsRefuted.vo", "C08/ProofsMat.vo", "C08/ProofsVec.vo",
            "C08/ProofsReduce.vo",
-           "C08/SpecTest.vo", "C08/Props.vo"]
-PROPS = ["C08/Props.v"]
+           "C08/SpecTest.vo", "C08/Props.vo",
+           # sparse containers (round 3): shared models C11.Model, C03.Model, C03.ModelM; C03's theorems are cited
+           "C11/Model.vo", "C03/Model.vo", "C03/ModelM.vo", "C03/PropsR2.vo", "C03/PropsM.vo",
+           "C08/ModelS.vo", "C08/SpecS.vo", "C08/CorrS.vo", "C08/ProofsSparse.vo", "C08/ProofsSparseCite.vo",
+           "C08/ProofsVecSelf.vo", "C08/PropsS.vo"]
+PROPS = ["C08/Props.v", "C08/PropsS.v"]
 PARTIAL = ("Scalar theorems are about the shared register-file model coq/C01/Model.v (HEAD incl. the fixes 7035970, 2fc8894, d9fca78), for "
            "an ARBITRARY carrier (floats included, no ring law used): closed form of both combinators for every receiver, receiver "
            "independence of every single-step operation (20 one-operand ops, Add Sub Mul Div Pow Sqrt) under the computed side condition "
@@ -25,7 +29,14 @@ PARTIAL = ("Scalar theorems are about the shared register-file model coq/C01/Mod
            "matrix products (hunt compares full jets of every entry for r = a, r = b, disjoint views; the Z model carries values only); Mnorm "
            "with the receiver at position (0,0) (safe: hunt class must agree) and the in-vector witnesses for Vnorm/SmoothMax/LogSmoothMax "
            "(bit-exact replay + hunt); LogAdd/LogSub with the scratch argument equal to an operand (exact rule in the harness: expected-safe "
-           "classes must agree); sparse containers.")
+           "classes must agree). SPARSE containers (PropsS.v, on the shared models C11.Model / C03.Model / C03.ModelM over Z, every element-type "
+           "instance): sparse MdotV / VdotM with the receiver identical to the vector operand end in Panic for EVERY world (every stored pattern "
+           "of r; the empty vector returns untouched) and the world reads as before (AT(0)'s insertion modelled); sparse MdotM with r = a or "
+           "r = b: always Panic, world reads as before; the guard at cell level fires for every stored pattern, the non-inserting variant is "
+           "refuted; dense MdotV / VdotM with identical vectors incl. the empty one; not-rejected aliasing of the sparse element-wise VECTOR ops "
+           "and the sparse products on distinct operands = corollaries of C03's theorems. NOT proved for sparse: element-wise sparse MATRIX "
+           "ops with the receiver among the operands (replayed for all stored patterns x nine element types + hunt), sparse vectors sharing "
+           "cells through Slice/Append (C11-SLICEWT territory), derivatives of sparse Real containers.")
 CORPUS = os.path.join(vlib.ROOT, "corpus/C08/corpus.jsonl")
 
 # hunt sites that are defects owned by other properties' known findings (referenced, not duplicated)
@@ -63,7 +74,7 @@ def corr(ctx, binary, n):
                       "harness failed on the implementation (crash while generating cases)")
         return []
     bad = []
-    for name in ("cases", "mat"):
+    for name in ("cases", "mat", "sp"):
         meta = json.load(open(os.path.join(ctx.dir, name + ".meta.json")))
         meta["name"] = name
         vlib.merge_meta(ctx, meta)
@@ -100,6 +111,10 @@ def describe(case):
     if case.get("scen"):
         s = case["scen"]
         return "%s %s" % (s["op"], s["pat"])
+    if case.get("sp"):
+        m = case["sp"]
+        return "sparse stream: %s %s, %s receiver, element type %s, stored pattern %s" % (
+            m.get("call"), m.get("pat"), m.get("recv"), m.get("type"), m.get("store"))
     m = case.get("mat") or {}
     return "%s %s" % (m.get("call"), m.get("pat"))
 
@@ -109,12 +124,14 @@ def run(ctx):
         "shared models coq/C01/Model.v (scalars) and coq/C10/Model.v + Gen.v (dense matrices; Gen.v is regenerated from /repo by property C10's check)",
         "libm / special-function results enter the bit-exact scalar replay as logged oracle values (what they compute is C01/C02/C13's business; alias independence does not depend on them)",
         "matrix/vector replay uses integer-valued entries (exact in binary64) against the Z instance of the model",
+        "sparse containers: shared models coq/C11/Model.v, coq/C03/Model.v, coq/C03/ModelM.v (owned by C11 / C03; their theorems C03.PropsR2 / C03.PropsM are cited by C08/ProofsSparseCite.v); private stored pattern read through the hook VerifC11Dump (/repo/verif_c11.go)",
         "axioms: scalar theorems are closed under the global context (no axioms) except reduction_overwrites_receiver_element (functional extensionality, for equality of register files); the refuted / regression lemmas over R use Coq's Reals; the binary64 witnesses use primitive floats"]
     ctx.cov["partial"] = PARTIAL
     ok, failures = vlib.proof_stage(ctx, TARGETS, PROPS)
     thms = vlib.theorem_names(os.path.join(vlib.COQ, "C08/Props.v"))
     if ok and ctx.tier == "thorough":
-        ctx.cov["print_assumptions"] = vlib.print_assumptions("C08", [("C08.Props", thms)], ctx.dir)
+        thms_s = vlib.theorem_names(os.path.join(vlib.COQ, "C08/PropsS.v"))
+        ctx.cov["print_assumptions"] = vlib.print_assumptions("C08", [("C08.Props", thms), ("C08.PropsS", thms_s)], ctx.dir)
     binary, blog = vlib.build_harness("c08")
     if binary is None:
         ctx.violation({"obligation": "build of harness/c08 against the library", "log": blog[-3000:]}, False,
@@ -147,7 +164,7 @@ def run(ctx):
                           "proof obligation no longer checks: %s %s" % (f["target"], f["lemma"] or ""))
         if bad:
             ctx.violation({"case": bad[0], "n_mismatching": len(bad),
-                           "obligation": "correspondence C01.Corr.check / C08.Corr.mcheck (model vs implementation)"},
+                           "obligation": "correspondence C01.Corr.check / C08.Corr.mcheck / C08.CorrS.scheck (model vs implementation)"},
                           False, "model and implementation disagree on %d case(s) (first: %s), but no alias pattern violating the property was found"
                           % (len(bad), describe(bad[0])))
 
